@@ -440,7 +440,7 @@ func (c *BackendConn) handleQuery(raw []byte, frm *frame.Frame, msg *message.Que
 		c.replyNow(stream, n.peersRows(c.Version))
 		return
 	case strings.HasPrefix(uq, "USE "):
-		ks := normKeyspace(strings.TrimSpace(strings.TrimSuffix(q[4:], ";")))
+		ks := normKeyspace(strings.TrimSpace(strings.TrimSuffix(strings.TrimSpace(stripCQLComments(q[4:])), ";")))
 		if n.Keyspaces != nil && !n.Keyspaces[ks] {
 			w.Stat("backend.use_unknown")
 			c.replyNow(stream, &message.Invalid{ErrorMessage: fmt.Sprintf("Keyspace '%s' does not exist", ks)})
@@ -456,6 +456,33 @@ func (c *BackendConn) handleQuery(raw []byte, frm *frame.Frame, msg *message.Que
 		return
 	}
 	c.tokenised(raw, frm, msg, tokenOf(msg))
+}
+
+// stripCQLComments removes /* */, -- and // comments (a node treats them as white space).
+func stripCQLComments(s string) string {
+	var b strings.Builder
+	for i := 0; i < len(s); {
+		switch {
+		case strings.HasPrefix(s[i:], "/*"):
+			j := strings.Index(s[i+2:], "*/")
+			if j < 0 {
+				return b.String()
+			}
+			i += j + 4
+			b.WriteByte(' ')
+		case strings.HasPrefix(s[i:], "--"), strings.HasPrefix(s[i:], "//"):
+			j := strings.IndexByte(s[i:], '\n')
+			if j < 0 {
+				return b.String()
+			}
+			i += j + 1
+			b.WriteByte(' ')
+		default:
+			b.WriteByte(s[i])
+			i++
+		}
+	}
+	return b.String()
 }
 
 // PreparedID is the id a node returns for PREPARE of query.
